@@ -413,8 +413,9 @@ type c09Session struct {
 	provs    map[string]*c09Provider
 	client   *light.Client
 	initWits []string
-	log      []c09Req
+	log      []*c09Req
 	evid     []c09Evid
+	pending  int // requests that arrived and have not been answered yet (gated ones included)
 	phase    string
 	inflight int
 	lastAct  time.Time
@@ -462,8 +463,9 @@ func (p *c09Provider) LightBlock(ctx context.Context, height int64) (*types.Ligh
 			resp = row[len(row)-1]
 		}
 	}
-	idx := len(s.log)
-	s.log = append(s.log, c09Req{P: p.name, H: height, R: "Pending", Ph: s.phase})
+	entry := &c09Req{P: p.name, H: height, R: "Pending", Ph: s.phase}
+	s.log = append(s.log, entry)
+	s.pending++
 	s.touch()
 	var gate chan struct{}
 	ep := 0
@@ -476,8 +478,9 @@ func (p *c09Provider) LightBlock(ctx context.Context, height int64) (*types.Ligh
 	active := false
 	finish := func(r string) {
 		s.mu.Lock()
-		s.log[idx].R = r
-		s.log[idx].done = true
+		entry.R = r
+		entry.done = true
+		s.pending--
 		if active {
 			s.inflight--
 		}
@@ -770,7 +773,7 @@ func (s *c09Session) finishCall() {
 		deadline := time.Now().Add(500 * time.Millisecond)
 		for time.Now().Before(deadline) {
 			s.mu.Lock()
-			busy := s.inflight
+			busy := s.pending
 			idle := time.Since(s.lastAct)
 			s.mu.Unlock()
 			if busy == 0 && idle > 1500*time.Microsecond {
@@ -798,12 +801,13 @@ func (s *c09Session) finishCall() {
 func (s *c09Session) takeLog() ([]c09Req, []c09Evid) {
 	s.mu.Lock()
 	defer s.mu.Unlock()
-	l, e := s.log, s.evid
+	l := make([]c09Req, 0, len(s.log))
+	for _, r := range s.log {
+		l = append(l, *r)
+	}
+	e := s.evid
 	s.log, s.evid = nil, nil
 	s.phase = "pri"
-	if l == nil {
-		l = []c09Req{}
-	}
 	if e == nil {
 		e = []c09Evid{}
 	}
